@@ -53,6 +53,13 @@ META = {
                   "is any cell of the edge); float arithmetic of det_3x3 is exact on the small integer coordinates used; "
                   "`Reals` axioms only in the orientation theorems over R. Orientation: 'outward' = right-hand normal of "
                   "(a,b,c) points away from the cell's fourth vertex, independent of any sign convention for cells. "
+                  "Inputs exercised beyond the theorems' guard: declared edges in every spelling (both directions, repeated, "
+                  "invalid pairs mixed in - modelled by norm_edges = what _prepare_edges keeps, lemma norm_edges_ok), vertex "
+                  "coordinates as python ints / uint8 / uint16 / int8 / int32 / float32 rows, and histories query -> swap two "
+                  "cells in place -> connectivity.clear() -> query with each accessor first (oracle only: the model is a "
+                  "function of one cell list; cell_to_cell and the border lists are excluded there because they live in the "
+                  "persistent 'adjacent_cell' attribute / in VolumeMesh caches that connectivity.clear() does not own); the "
+                  "translator pins clear() (every cache attribute of __init__ reset exactly once, super().clear() called). "
                   "Deliberately left free (oracle accepts any): the exception class/message of any refusal (recorded for "
                   "information; a query the text says must be answered may not raise at all); whether a query about a "
                   "non-existent / non-incident element (face_id / edge_id of a non-face, other_face_side / common_face / "
@@ -216,10 +223,42 @@ def gen_case(rng, big=False):
         mesh["V"] = [[0, 0, 0] if z == "point" else [p[0], p[1], 0] for p in mesh["V"]]
         extra["degenerate"] = True
         tags.append("degenerate-geometry")
-    for k2 in ("argrep", "scale_exp", "collide"):
+    # vertex coordinates in every numeric representation (values unchanged; unsigned types need them >= 0)
+    extra["vrep"] = "float"
+    if extra["scale_exp"] == 0 and rng.random() < 0.45:
+        vr = rng.choice(["int", "uint8", "uint16", "int8", "int32", "float32"])
+        if vr in ("uint8", "uint16", "int8"):
+            lo = [min(p[t] for p in mesh["V"]) for t in range(3)]
+            mesh["V"] = [[p[t] - lo[t] for t in range(3)] for p in mesh["V"]]      # a translation: orientation unchanged
+            hi = max(max(p) for p in mesh["V"])
+            if hi > {"uint8": 255, "uint16": 65535, "int8": 127}[vr]:
+                vr = "int32"
+        extra["vrep"] = vr
+    for k2 in ("argrep", "scale_exp", "collide", "vrep"):
         tags.append("%s=%s" % (k2, extra[k2]))
+    if kind == "from_arrays":
+        E0 = [e for e in E0 if max(e) < len(mesh["V"])]      # from_arrays refuses out-of-range indices (a legitimate refusal)
+    script = gen_script(rng, mesh, n_ops, manifold, sort)
+    if len(mesh["C"]) >= 2 and rng.random() < 0.15:
+        # history: query, edit the cell list in place, connectivity.clear(), query again - each accessor in turn is the
+        # FIRST one asked after the reset (cell_to_cell and the border lists are excluded: they live in a persistent
+        # attribute / in VolumeMesh caches that connectivity.clear() does not own)
+        i, j = rng.sample(range(len(mesh["C"])), 2)
+        nf, ne = len(counts(mesh)[0]), len(counts(mesh)[1])
+        after = [["face_to_cells", rng.randrange(nf)], ["n_F2C", rng.randrange(nf)], ["cell_to_face", i],
+                 ["other_face_side", i, rng.randrange(nf)], ["vertex_to_cell", rng.choice(mesh["C"][i])],
+                 ["edge", rng.randrange(ne), "cf"], ["edge", rng.randrange(ne), "fc"], ["cell_to_edge", j],
+                 ["in_cell_index", i, rng.choice(mesh["C"][j])], ["in_cell_face_index", i, rng.randrange(nf)],
+                 ["common_face", i, j], ["face_to_cells", rng.randrange(nf)], ["cell_to_face", j]]
+        first = after.pop(rng.randrange(len(after)))
+        rng.shuffle(after)
+        script = [o for o in script if o[0] not in ("enable_bc", "extract")]
+        script += [["face_to_cells", rng.randrange(nf)], ["cell_to_face", j], ["edge", rng.randrange(ne), "cf"],
+                   ["swap_clear", i, j], first] + after[:rng.randint(2, 6)]
+        tags.append("history=edit+clear")
+        tags.append("first-after-clear=" + first[0])
     case = {**extra, "V": mesh["V"], "C": mesh["C"], "F0": F0, "E0": E0, "kind": kind, "sort": sort,
-            "script": gen_script(rng, mesh, n_ops, manifold, sort), "tags": tags, "edge_manifold": manifold}
+            "script": script, "tags": tags, "edge_manifold": manifold}
     return case
 
 
@@ -273,6 +312,8 @@ def case_term(case, obs):
     qs = []
     bc = ex = "None"
     for op, a in zip(case["script"], obs["answers"]):
+        if op[0] == "swap_clear":
+            break           # the model is a function of ONE cell list: the edited phase is checked by the oracle
         if op[0].startswith("bad:"):
             continue
         if op[0] in ("face_id_t", "face_id_l"):
@@ -315,7 +356,7 @@ def case_term(case, obs):
 # ---------------------------------------------------------------------- running
 def run_batch(cases, timeout=900):
     nsh = max(1, min(core.NCPU, len(cases) // 12))
-    payloads = [{"cases": [{k: c.get(k) for k in ("V", "C", "F0", "E0", "kind", "sort", "script", "argrep", "scale_exp", "collide", "degenerate")} for c in cases[i::nsh]]} for i in range(nsh)]
+    payloads = [{"cases": [{k: c.get(k) for k in ("V", "C", "F0", "E0", "kind", "sort", "script", "argrep", "scale_exp", "collide", "degenerate", "vrep")} for c in cases[i::nsh]]} for i in range(nsh)]
     results = core.run_impl_parallel(DRIVER, payloads, timeout=timeout)
     obs = [None] * len(cases)
     for i, r in enumerate(results):
@@ -325,7 +366,7 @@ def run_batch(cases, timeout=900):
 
 
 def run_one(case):
-    return core.run_impl(DRIVER, {"cases": [{k: case.get(k) for k in ("V", "C", "F0", "E0", "kind", "sort", "script", "argrep", "scale_exp", "collide", "degenerate")}]}, timeout=120)["obs"][0]
+    return core.run_impl(DRIVER, {"cases": [{k: case.get(k) for k in ("V", "C", "F0", "E0", "kind", "sort", "script", "argrep", "scale_exp", "collide", "degenerate", "vrep")}]}, timeout=120)["obs"][0]
 
 
 def which_fail(cands, key):
@@ -333,7 +374,7 @@ def which_fail(cands, key):
     if not cands:
         return []
     try:
-        obs = core.run_impl(DRIVER, {"cases": [{k: c.get(k) for k in ("V", "C", "F0", "E0", "kind", "sort", "script", "argrep", "scale_exp", "collide", "degenerate")} for c in cands]},
+        obs = core.run_impl(DRIVER, {"cases": [{k: c.get(k) for k in ("V", "C", "F0", "E0", "kind", "sort", "script", "argrep", "scale_exp", "collide", "degenerate", "vrep")} for c in cands]},
                             timeout=300)["obs"]
     except Exception:
         return []
@@ -481,7 +522,7 @@ def run(ctx):
         ctx.violation(m2[0] if m2 else msg, {"case": small, "observed": ob, "class": key}, key=key)
     if bad and not fails:
         for i in bad[:3]:
-            ctx.log("model/implementation disagreement on case %d: %s" % (i, json.dumps({k: cases[i].get(k) for k in ("V", "C", "F0", "E0", "kind", "sort", "script", "argrep", "scale_exp", "collide", "degenerate")})))
+            ctx.log("model/implementation disagreement on case %d: %s" % (i, json.dumps({k: cases[i].get(k) for k in ("V", "C", "F0", "E0", "kind", "sort", "script", "argrep", "scale_exp", "collide", "degenerate", "vrep")})))
             ctx.log("   observed: " + json.dumps(obs[i])[:1500])
         ctx.notes.append("model and implementation disagree on cases %s although the oracle accepts the implementation's answers" % bad[:10])
     if bad is None:
@@ -495,7 +536,7 @@ def replay(ctx, data):
         return 1
     ob = run_one(case)
     fl = O.check(case, ob)
-    print("case:", json.dumps({k: case.get(k) for k in ("V", "C", "F0", "E0", "kind", "sort", "script", "argrep", "scale_exp", "collide", "degenerate")}))
+    print("case:", json.dumps({k: case.get(k) for k in ("V", "C", "F0", "E0", "kind", "sort", "script", "argrep", "scale_exp", "collide", "degenerate", "vrep")}))
     print("observed:", json.dumps(ob)[:3000])
     for k, m in fl:
         print("FAILS [%s]: %s" % (k, m))
